@@ -100,6 +100,8 @@ def pyint_str(t):
 
 # ------------------------------------------------------------------------------------------------ binop
 def binop(ip, st, op, a, b):
+    if isinstance(op, ast.Mod) and isinstance(a, str):
+        return percent_format(ip, st, a, b)        # '%s' % None is fine: no unwrapping of Optional arguments
     if (isinstance(a, Sym) and is_opt(a.ty)) or (isinstance(b, Sym) and is_opt(b.ty)):
         from .lib import unwrap_opt
         a, b = unwrap_opt(ip, st, a), unwrap_opt(ip, st, b)
